@@ -20,7 +20,7 @@ def base_scenario(i, rnd, calls, big=False):
                                          {"name": "D2", "code": 0xC3, "dims": []}, {"name": "BW", "code": 0xC4, "dims": []}])
     return {"id": "q%d" % i, "family": "sequence", "target": {"policy": "LargeOK", "identity": S.identity(fw=32)},
             "project": proj, "mem": mem, "driver": {"kind": "logix", "path": "10.3.3.3", "route": [S.port_seg("bp", 0)], "init_tags": True},
-            "calls": [{"api": "open"}] + calls + [{"api": "close"}], "budget": 3000000}
+            "calls": [{"api": "open"}] + calls + [{"api": "close"}], "budget": 3000000 if big else 30000}
 
 
 def ops(rnd):
@@ -102,6 +102,26 @@ def run(ctx):
             sc = base_scenario(len(scs), rnd, calls)
             sc["target"]["script"] = [script] * 8
             scs.append(sc)
+    # redundant open() calls between messages, and a target that answers a fragment request with an empty fragment
+    for j in range(6):
+        g = o["generic"]
+        calls = g + [{"api": "open"}] + g + o["read1"] + [{"api": "open"}] + o["read1"] + g
+        sc = base_scenario(len(scs), rnd, calls)
+        sc["target"]["script"] = [script] * 8
+        scs.append(sc)
+        sc = base_scenario(len(scs), rnd, o["generic"] + o["readfrag"] + o["read1"] + o["readfrag"])
+        sc["target"]["script"] = [script] * 4
+        sc["target"]["caps"] = rnd.choice([[0, 4000, 0, 500], [0], [1000, 0, 0, 3000], [0, 0, 1]])
+        scs.append(sc)
+    # plain CIPDriver histories (the counter starts at 1 right after open): redundant opens, close / re-open
+    from .c10 import scenario as life
+    for hist in (["open", "msgC", "open", "msgC", "msgC"], ["open", "msgC", "msgC", "open", "msgC"], ["open", "msgC", "close", "open", "msgC", "msgC"],
+                 ["msgC", "open", "msgC", "open", "open", "msgC"], ["open", "msgC", "msgU", "open", "msgC"]):
+        for pol in ("LargeOK", "LargeRefused"):
+            sc = life(len(scs), pol, "none", 0, hist, rnd)
+            sc["id"] = "qc%d" % len(scs)
+            sc["family"] = "sequence"
+            scs.append(sc)
     # members of one multi-service call consuming a multiple of 65535 counts: the scaled counterexample of the design
     # model replayed at real scale.  Quick tier: only when the model, instantiated with the measured design, admits it.
     design_breaks = any(k.startswith("design_counterexample") for k in ctx.extra)
@@ -113,7 +133,7 @@ def run(ctx):
         ks += [65535]
     for k in ks:
         g = o["generic"]
-        sc = base_scenario(len(scs), rnd, g + [S.read_call([R([("D1", [])])] * k)] + g)
+        sc = base_scenario(len(scs), rnd, g + [S.read_call([R([("D1", [])])] * k)] + g, big=True)
         sc["target"]["script"] = [script] * 4
         sc["id"] = "qbig%d" % k
         scs.append(sc)
@@ -121,7 +141,7 @@ def run(ctx):
         calls = []
         for j in range(330):
             calls += [S.read_call([R([("D1", [])])] * 1)] * 200
-        sc = base_scenario(len(scs), rnd, calls)
+        sc = base_scenario(len(scs), rnd, calls, big=True)
         sc["id"] = "qlong"
         scs.append(sc)
     results = se.run_all(ctx, scs, "c17", shard_traces=8, shard_bytes=30_000_000, timeout=3000)
